@@ -22,6 +22,8 @@ CMPNAMES = {ast.Eq: "==", ast.NotEq: "!=", ast.Lt: "<", ast.LtE: "<=", ast.Gt: "
             ast.In: "in", ast.NotIn: "not in"}
 COMMUTATIVE = {"+", "*", "|", "&", "^"}
 MAX_INLINE = 4
+INLINE_MAX_NODES = 260       # AST nodes of a helper that may be inlined
+INLINE_MAX_RESULT = 400      # size of an inlined value
 
 
 class Sym:
@@ -87,6 +89,57 @@ class Sym:
                 res.append((tuple(guards), rets[-1][1] if rets else None, env))
         return res
 
+    def env_at(self, target, bound=None):
+        """(env, guards) at an AST node of the function: statements before it are interpreted in order, compound statements
+        containing it are entered (recording the conditions of the ifs on the way; loops and try bodies are entered once)."""
+        env = {}
+        for p in self.fi.params:
+            env[p] = (bound or {}).get(p, ("param", p))
+        guards = []
+
+        def contains_t(st):
+            return any(x is target for x in ast.walk(st))
+
+        def walk(stmts):
+            for st in stmts:
+                if st is target:
+                    return True
+                if contains_t(st):
+                    if isinstance(st, ast.If):
+                        c = self.expr(st.test, env, 0)
+                        if any(contains_t(x) for x in st.body):
+                            guards.append(c)
+                            return walk(st.body)
+                        guards.append(c[1] if c and c[0] == "not" else ("not", c))
+                        return walk(st.orelse)
+                    if isinstance(st, (ast.For, ast.While)):
+                        if isinstance(st, ast.For):
+                            self._bind(st.target, ("bv", self._fresh()), env)
+                        if any(contains_t(x) for x in st.body):
+                            return walk(st.body)
+                        return walk(st.orelse)
+                    if isinstance(st, ast.Try):
+                        for blk in (st.body, st.orelse, st.finalbody):
+                            if any(contains_t(x) for x in blk):
+                                if blk is not st.body:
+                                    self._run(list(st.body), env, 0, None)
+                                return walk(blk)
+                        for h in st.handlers:
+                            if any(contains_t(x) for x in h.body):
+                                return walk(h.body)
+                    if isinstance(st, (ast.With,)):
+                        return walk(st.body)
+                    return True      # the target is inside a simple statement (expression)
+                # statement before the target
+                if isinstance(st, (ast.For, ast.While, ast.Try, ast.With)):
+                    # interpret what is understood, mark the rest opaque
+                    self._run([st] if not isinstance(st, (ast.Try, ast.With)) else list(st.body), env, 0, None)
+                else:
+                    self._run([st], env, 0, None)
+            return False
+        walk(list(self.fi.node.body))
+        return env, tuple(guards)
+
     def env_at_end(self, stmts=None, bound=None):
         """Environment (name -> canonical) after straight-line interpretation of the body (for analysing locals)."""
         env = {}
@@ -103,7 +156,7 @@ class Sym:
             return None
         val = rets[-1][1]
         for test, v in reversed(rets[:-1]):
-            val = ("phi", test, v, val)
+            val = mkphi(test, v, val)
         return val
 
     def _run(self, stmts, env, depth, collect, guard=None):
@@ -166,7 +219,7 @@ class Sym:
                 else:
                     for k in set(e1) | set(e2):
                         a, b = e1.get(k, ("unbound", k)), e2.get(k, ("unbound", k))
-                        env[k] = a if a == b else ("phi", test, a, b)
+                        env[k] = a if a == b else mkphi(test, a, b)
                 continue
             if isinstance(s, ast.Try):
                 # try: X = A  except E: X = B        /  try: return A except E: return B
@@ -383,7 +436,7 @@ class Sym:
                 out.append(("cmp", CMPNAMES[type(op)], parts[-2], parts[-1]))
             return out[0] if len(out) == 1 else ("and",) + tuple(out)
         if isinstance(e, ast.IfExp):
-            return ("phi", self.expr(e.test, env, depth), self.expr(e.body, env, depth), self.expr(e.orelse, env, depth))
+            return mkphi(self.expr(e.test, env, depth), self.expr(e.body, env, depth), self.expr(e.orelse, env, depth))
         if isinstance(e, (ast.Tuple, ast.List)):
             return ("tuple" if isinstance(e, ast.Tuple) else "list", tuple(self.expr(x, env, depth) for x in e.elts))
         if isinstance(e, ast.Dict):
@@ -491,6 +544,9 @@ class Sym:
         return d
 
     def _inline(self, target, c, args, kws, depth, tcls):
+        # only small helpers are inlined: big functions stay opaque call nodes
+        if sum(1 for _ in ast.walk(target.node)) > INLINE_MAX_NODES:
+            return None
         params = list(target.params)
         if target.cls is not None and not target.is_static and params and params[0] in ("self", "cls"):
             params = params[1:]
@@ -506,7 +562,34 @@ class Sym:
         v = sub.function_value(bound, depth + 1)
         if v[0] == "opaque" or contains(v, lambda x: isinstance(x, tuple) and len(x) == 3 and x[0] == "loop"):
             return None
+        if size(v) > INLINE_MAX_RESULT:
+            return None
         return v
+
+
+def mkphi(test, a, b):
+    if a == b:
+        return a
+    if a == ("const", True) and b == ("const", False):
+        return test
+    if a == ("const", False) and b == ("const", True):
+        return test[1] if test and test[0] == "not" else ("not", test)
+    if test and test[0] == "not":
+        return ("phi", test[1], b, a)
+    return ("phi", test, a, b)
+
+
+def simplify(x, oracle):
+    """resolve phi nodes whose test the oracle decides"""
+    if not isinstance(x, tuple) or not x:
+        return x
+    if x[0] == "phi":
+        r = eval_cond(x[1], oracle)
+        if r is True:
+            return simplify(x[2], oracle)
+        if r is False:
+            return simplify(x[3], oracle)
+    return tuple(simplify(y, oracle) for y in x)
 
 
 def _norm_list(v):
@@ -528,6 +611,12 @@ def _strict_numeric(x):
 
 def _numeric(x):
     return _strict_numeric(x) or x[0] in ("param", "self", "attr", "call", "item", "bv", "name", "phi", "sub", "method")
+
+
+def size(x):
+    if not isinstance(x, tuple):
+        return 1
+    return 1 + sum(size(y) for y in x)
 
 
 def alpha(x, mapping=None):
